@@ -1,0 +1,10 @@
+//go:build verif
+
+package mhprimary
+
+// VerifFileNum returns the number of the primary file currently written to.
+func (mp *MultihashPrimary) VerifFileNum() uint32 {
+	mp.flushLock.Lock()
+	defer mp.flushLock.Unlock()
+	return mp.fileNum
+}
